@@ -67,6 +67,7 @@ ExactClaims(e) ==
 TBegin == IsEvent("Begin") /\ acc' = <<>>
 TTrial == IsEvent("Trial") /\ LET e == Log[l]  a == Get(e.group) IN
   /\ Chk("n", e.sn = e.n)
+  /\ Chk("published-error-survives-round-trip", (e.kind = "eps" /\ Has(e, "epsrt")) => e.epsrt = <<e.eps, e.epspmf, e.eps, e.epspmf>>)
   /\ Chk("req-bounds-ordered", e.kind = "bounds" => BoundsOrdered(e))
   /\ (e.kind = "bounds" => ExactClaims(e))
   /\ Chk("harness:mixed-k-group-is-bounds", e.group = "req-mixed-k" => e.kind = "bounds")
